@@ -2,7 +2,7 @@
 # Run every seeded change against the check of the property it targets (scratch copy of /repo/lib),
 # record the outcome in seeded/<id>/meta.json.  Optional args: seed ids.
 cd /verif
-ids="$@"; [ -z "$ids" ] && ids=$(ls seeded)
+ids="$@"; [ -z "$ids" ] && ids=$(cd seeded && ls -d */ | tr -d /)
 for id in $ids; do
   prop=${id%%-*}
   line=$(tools/selftest.py --patch seeded/$id/patch.diff $prop 2>&1 | grep "^$prop" | head -1)
